@@ -370,6 +370,23 @@ def run_bootstrap(case):
         res.fail('bootstrap_final_state:%s' % ('absent' if content is None else
                                                'empty' if not content else content),
                  'killme.signal=%r -> final_state=%r, expected %r' % (content, out[0], exp))
+    # the pilot job's exit status is what the launcher turns into the pilot's final state when the
+    # agent did not end cleanly (no killme.signal): an agent which exited non-zero / was killed
+    # must not make the bootstrapper exit 0
+    if content is None:
+        for agent_exit, kill in ((int(case.get('exitcode', 0)), False), (0, True)):
+            with ch.in_dir() as d:
+                rc = ch.bootstrap_tail_exit(d, agent_exit, kill=kill)
+            if rc is None:
+                res.label('bootstrap_tail_not_found')
+                break
+            died_badly = kill or agent_exit != 0
+            if died_badly and rc == 0:
+                res.fail('bootstrap_exit_status:zero_after_agent_%s' % ('killed' if kill else 'exit_nonzero'),
+                         'agent %s, bootstrapper exits %d' % ('killed' if kill else 'exit %d' % agent_exit, rc))
+            elif not died_badly and rc != 0:
+                res.fail('bootstrap_exit_status:nonzero_after_clean_exit', 'bootstrapper exits %d' % rc)
+            res.nontrivial = True
     return res
 
 
